@@ -96,6 +96,7 @@ class Ctx:
         self.parser = self.m.cls("HtmlToAst")
         self.attribute = self.m.cls("Attribute")
         self.stack_attr = self._stack_attr()
+        self.counters = self._counter_attrs()
 
     def _stack_attr(self) -> str:
         init = self.tree.methods.get("__init__")
@@ -112,6 +113,30 @@ class Ctx:
                 if d and d.rsplit(".", 1)[-1] in ("deque", "list"):
                     return tgt.attr
         raise AnchorMissing("Tree.__init__ no longer creates the open-element stack (deque/list attribute)")
+
+    def _counter_attrs(self) -> set[str]:
+        """Tree attributes created in __init__ as an empty mapping (per-name bookkeeping next to the stack)."""
+        out = set()
+        init = self.tree.methods["__init__"]
+        for n in walk_local(init.node):
+            tgt = val = None
+            if isinstance(n, ast.Assign) and len(n.targets) == 1:
+                tgt, val = n.targets[0], n.value
+            elif isinstance(n, ast.AnnAssign):
+                tgt, val = n.target, n.value
+            if not _is_self_attr(tgt) or val is None or tgt.attr == self.stack_attr:
+                continue
+            if isinstance(val, ast.Dict) and not val.keys:
+                out.add(tgt.attr)
+            elif isinstance(val, ast.Call) and (dotted(val.func) or "").rsplit(".", 1)[-1] in ("dict", "defaultdict", "Counter") and len(val.args) <= 1 and all(unparse(a) == "int" for a in val.args):
+                out.add(tgt.attr)
+        return out
+
+    def counter_of(self, e: ast.AST) -> str | None:
+        """``self.<counter>`` -> attribute name."""
+        if isinstance(e, ast.Attribute) and e.attr in self.counters and isinstance(e.value, ast.Name) and e.value.id == "self":
+            return e.attr
+        return None
 
     def owner_class(self, fi: FunctionInfo | None) -> ClassInfo | None:
         while fi is not None:
@@ -389,6 +414,29 @@ def r1_owner_writes(corpus: Corpus, rep: Report, tier: str):
 INSERTERS = {"append", "insert", "extend", "__setitem__", "reset_children", "__iadd__"}
 
 
+def _counter_update(P: Ctx, st: ast.stmt):
+    """(counter, 'inc' | 'dec', key expression) for `self.c[k] += 1`, `self.c[k] = self.c.get(k, 0) + 1`, ... else None."""
+    if isinstance(st, ast.AugAssign) and isinstance(st.target, ast.Subscript) and P.counter_of(st.target.value) and isinstance(st.op, (ast.Add, ast.Sub)) and isinstance(st.value, ast.Constant) and st.value.value == 1:
+        return P.counter_of(st.target.value), "inc" if isinstance(st.op, ast.Add) else "dec", st.target.slice
+    if isinstance(st, ast.Assign) and len(st.targets) == 1 and isinstance(st.targets[0], ast.Subscript) and P.counter_of(st.targets[0].value):
+        c, k, v = P.counter_of(st.targets[0].value), st.targets[0].slice, st.value
+        if isinstance(v, ast.BinOp) and isinstance(v.op, (ast.Add, ast.Sub)) and isinstance(v.right, ast.Constant) and v.right.value == 1:
+            old = v.left
+            reads = (
+                isinstance(old, ast.Subscript) and P.counter_of(old.value) == c and unparse(old.slice) == unparse(k)
+            ) or (
+                isinstance(old, ast.Call) and isinstance(old.func, ast.Attribute) and old.func.attr == "get" and P.counter_of(old.func.value) == c and old.args and unparse(old.args[0]) == unparse(k)
+                and (len(old.args) == 1 or (isinstance(old.args[1], ast.Constant) and old.args[1].value == 0))
+            )
+            if reads:
+                return c, "inc" if isinstance(v.op, ast.Add) else "dec", k
+    return None
+
+
+def _touches_counter(P: Ctx, st: ast.AST) -> bool:
+    return any(P.counter_of(x) for x in ast.walk(st))
+
+
 def _deepcopy_impls(P: Ctx) -> list[FunctionInfo]:
     return [ci.methods["deepcopy"] for ci in P.hier if "deepcopy" in ci.methods]
 
@@ -439,7 +487,7 @@ def _insertions(P: Ctx, fi: FunctionInfo):
             if not _element_receiver(P, n.func.value, fi):
                 raise Unsupported(f"{fi.fq}: `{short(n, 50)}`: receiver is not known to be an element (nor the open-element stack)")
             out.append((enclosing_stmt(n), n.args[-1], n))
-        elif isinstance(n, ast.Subscript) and isinstance(n.ctx, ast.Store) and not P.is_stack(n.value):
+        elif isinstance(n, ast.Subscript) and isinstance(n.ctx, ast.Store) and not P.is_stack(n.value) and not P.counter_of(n.value):
             asg = parent(n)
             if isinstance(asg, ast.Assign):
                 out.append((asg, asg.value, n))
@@ -1250,7 +1298,43 @@ def _judge_attribute_str(P: Ctx, rep: Report, hp) -> None:
     if not (isinstance(gen.target, ast.Tuple) and len(gen.target.elts) == 2 and all(isinstance(e, ast.Name) for e in gen.target.elts) and unparse(gen.iter) == "self.items()" and not gen.ifs):
         raise Unsupported(f"{fi.fq}: comprehension is not `for key, value in self.items()`")
     kname, vname = (e.id for e in gen.target.elts)
-    tpl = _template(v.args[0].elt)
+    elt = _resolve_name(v.args[0].elt)
+    if isinstance(elt, ast.IfExp):
+        # a separate form for value-less attributes (value None, `<input disabled>`): outside the grammar, allowed -
+        # but every *string* value, the empty one included, must still take the name="value" branch
+        t = elt.test
+        neg = False
+        while isinstance(t, ast.UnaryOp) and isinstance(t.op, ast.Not):
+            t, neg = t.operand, not neg
+        str_branch = None
+        if isinstance(t, ast.Compare) and len(t.ops) == 1 and _is_name(t.left, vname) and isinstance(t.comparators[0], ast.Constant) and t.comparators[0].value is None and isinstance(t.ops[0], (ast.Is, ast.IsNot, ast.Eq, ast.NotEq)):
+            is_none_when_true = isinstance(t.ops[0], (ast.Is, ast.Eq)) != neg
+            str_branch = elt.orelse if is_none_when_true else elt.body
+        elif _is_name(t, vname):
+            truthy_when_true = not neg
+            other = elt.orelse if truthy_when_true else elt.body
+            key = f"{fi.fq}|attributes are written as name=\"value\" separated by one space"
+            otpl = _template(other)
+            # what the falsy branch writes for the empty string: substitute value = ""
+            sub: list = []
+            for k_, v_ in otpl:
+                if k_ == "hole" and _is_name(v_, vname):
+                    continue
+                if k_ == "hole" and any(_is_name(x, vname) for x in ast.walk(v_)):
+                    raise Unsupported(f"{fi.fq}: `{short(v_, 40)}` in the branch for falsy values")
+                if k_ == "lit" and sub and sub[-1][0] == "lit":
+                    sub[-1] = ("lit", sub[-1][1] + v_)
+                else:
+                    sub.append((k_, v_))
+            if len(sub) == 2 and sub[0][0] == "hole" and _is_name(sub[0][1], kname) and sub[1] == ("lit", '=""'):
+                str_branch = elt.body if truthy_when_true else elt.orelse
+            else:
+                rep.violation("C16.R3", key, site, f"`{short(elt, 70)}` selects the form by the truthiness of the value: an attribute whose double-quoted value is the empty string (`alt=\"\"`) takes the value-less branch and is rendered as {_fmt_tpl(otpl)}, not as `alt=\"\"`")
+                return
+        if str_branch is None:
+            raise Unsupported(f"{fi.fq}: attribute form selected by `{short(elt.test, 40)}`")
+        elt = str_branch
+    tpl = _template(elt)
     lits = [x[1] for x in tpl if x[0] == "lit"]
     holes = [x[1] for x in tpl if x[0] == "hole"]
     key = f"{fi.fq}|attributes are written as name=\"value\" separated by one space"
@@ -1567,6 +1651,7 @@ class _Sim:
         self.sym: list[str] = []  # pushed above the untouched base
         self.popped = 0  # entries taken from the base
         self.inserts: list[tuple[str, str]] = []
+        self.counter_updates: list[tuple[str, str, str, str]] = []  # counter, inc/dec, key text, function
         self.n_new = 0
 
     def value(self, e: ast.expr, fi: FunctionInfo, env: dict[str, str], hint: str = "") -> str | None:
@@ -1613,6 +1698,12 @@ class _Sim:
                 continue
             if isinstance(st, ast.Return):
                 return self.value(st.value, fi, env) if st.value is not None else None
+            if _touches_counter(P, st):
+                cu = _counter_update(P, st)
+                if cu is None:
+                    raise Unsupported(f"{fi.fq}: `{short(st, 50)}` uses the per-name counter in a way that is not +1 / -1 for one key")
+                self.counter_updates.append((cu[0], cu[1], unparse(cu[2]), fi.qualname))
+                continue
             if isinstance(st, (ast.Assign, ast.AnnAssign)):
                 tgt = st.targets[0] if isinstance(st, ast.Assign) and len(st.targets) == 1 else getattr(st, "target", None)
                 if not isinstance(tgt, ast.Name) or st.value is None:
@@ -1652,6 +1743,7 @@ def _simulate(P: Ctx, fi: FunctionInfo):
     """(final stack suffix, popped from base, insertions) of a nest function."""
     sim = _Sim(P)
     sim.run(fi, {})
+    fi.__dict__["_c16_counter_updates"] = sim.counter_updates
     return sim.sym, sim.popped, sim.inserts
 
 
@@ -1715,6 +1807,30 @@ def r5_stack_discipline(corpus: Corpus, rep: Report, tier: str):
         rep.ok("C16.R5", key, push.site(), f"stack: [.., top] -> [.., top, {new[0][4:]}]; {new[0][4:]} appended to top")
     else:
         rep.violation("C16.R5", key, push.site(), f"after {push.qualname} the stack is [.., {', '.join(x.replace('NEW:', '') for x in sym) or '-'}] (popped {popped}) and insertions are {inserts}: expected [.., top, new] with new appended to top - children of the new element would be attached to the wrong parent")
+    # per-name counters consulted by the closing function: +1 exactly where an element is pushed
+    (pop,) = pop_fns.values()
+    used_counters = sorted({P.counter_of(x) for x in ast.walk(pop.node) if P.counter_of(x)})
+    if used_counters:
+        em = next(e for e in cbmap.get("handle_starttag", []) if e.tm.fq == push.fq)
+        name_arg = unparse(em.ctor.args[0]) if em.ctor is not None and em.ctor.args else None
+        item_names = {v[4:].split("#")[0] for v in new}
+        for c in used_counters:
+            key = f"{push.fq}|per-name counter {c} is incremented for the pushed element"
+            ups = [u for u in push.__dict__.get("_c16_counter_updates", []) if u[0] == c]
+            good_keys = {name_arg} | {f"{n}.name" for n in item_names}
+            if not ups:
+                rep.violation("C16.R5", key, push.site(), f"{pop.qualname} consults self.{c}, but {push.qualname} pushes the new element without incrementing it: the counter under-counts, so genuine closing tags are ignored as stray and following siblings are nested inside the unclosed element")
+            elif len(ups) == 1 and ups[0][1] == "inc" and ups[0][2] in good_keys:
+                rep.ok("C16.R5", key, push.site(), f"{c}[{ups[0][2]}] += 1 next to the push")
+            else:
+                raise Unsupported(f"{push.fq}: counter updates {ups}")
+        for fq, fi in sorted(leaf_fns.items()):
+            if _stack_ops(P, fi):
+                continue
+            _simulate(P, fi)
+            for u in fi.__dict__.get("_c16_counter_updates", []):
+                if u[0] in used_counters:
+                    rep.violation("C16.R5", f"{fq}|per-name counter {u[0]} untouched by childless nodes", fi.site(), f"{fi.qualname} builds a childless node (never pushed) but changes self.{u[0]}: the counter no longer equals the number of open elements of that name")
     # childless nodes: appended to the current top
     for fq, fi in sorted(leaf_fns.items()):
         rep.saw_function(fq)
@@ -1760,9 +1876,36 @@ class _EncloseRun:
         self.pops = 0
         self.iterating = 0
         self.steps = 0
+        self.popped_entries: list[_Entry] = []
+        # per-name counters: under the invariant counter[n] == number of open elements named n, the value for the
+        # closing tag's name is the number of matching entries; decrements are recorded and paired with the pops
+        self.count_match: dict[str, int] = {}
+        self.decs: dict[str, list] = {}
+
+    def counter_value(self, c: str) -> int:
+        if c not in self.count_match:
+            self.count_match[c] = sum(1 for e in self.stack + self.popped_entries if e.matches)
+        return self.count_match[c]
+
+    def counter_key(self, k: ast.expr):
+        if _is_name(k, self.name_param):
+            return "name"
+        if isinstance(k, ast.Attribute) and k.attr == "name":
+            ent = self.ev(k.value)
+            if isinstance(ent, _Entry):
+                return ent
+        raise Unsupported(f"{self.fi.fq}: counter key `{short(k, 30)}`")
 
     def ev(self, e: ast.expr):
         P = self.P
+        if isinstance(e, ast.Subscript) and P.counter_of(e.value):
+            if self.counter_key(e.slice) == "name":
+                return self.counter_value(P.counter_of(e.value))
+            raise Unsupported(f"{self.fi.fq}: counter read `{short(e, 40)}`")
+        if isinstance(e, ast.Call) and isinstance(e.func, ast.Attribute) and e.func.attr == "get" and P.counter_of(e.func.value) and 1 <= len(e.args) <= 2:
+            if self.counter_key(e.args[0]) == "name" and (len(e.args) == 1 or (isinstance(e.args[1], ast.Constant) and e.args[1].value in (0, None))):
+                return self.counter_value(P.counter_of(e.func.value))
+            raise Unsupported(f"{self.fi.fq}: counter read `{short(e, 40)}`")
         if isinstance(e, ast.Constant) and isinstance(e.value, (int, bool)) or isinstance(e, ast.Constant) and e.value is None:
             return e.value
         if isinstance(e, ast.Name):
@@ -1851,6 +1994,7 @@ class _EncloseRun:
         if not self.stack:
             raise _Stops("IndexError: pop from an empty stack")
         self.pops += 1
+        self.popped_entries.append(self.stack[-1])
         return self.stack.pop()
 
     def bind(self, tgt: ast.expr, val) -> None:
@@ -1877,6 +2021,16 @@ class _EncloseRun:
             return None
         if isinstance(st, ast.Expr):
             self.ev(st.value)
+            return None
+        if isinstance(st, (ast.Assign, ast.AugAssign)) and _touches_counter(self.P, st.targets[0] if isinstance(st, ast.Assign) else st.target):
+            cu = _counter_update(self.P, st)
+            if cu is None or cu[1] != "dec":
+                raise Unsupported(f"{self.fi.fq}: counter update `{short(st, 50)}`")
+            k = self.counter_key(cu[2])
+            self.counter_value(cu[0])
+            self.decs.setdefault(cu[0], []).append(k)
+            if k == "name" or k.matches:
+                self.count_match[cu[0]] -= 1
             return None
         if isinstance(st, ast.Assign) and len(st.targets) == 1:
             self.bind(st.targets[0], self.ev(st.value))
@@ -1945,6 +2099,8 @@ def _judge_enclose(P: Ctx, rep: Report, fi: FunctionInfo) -> None:
     if len([p for p in fi.params if p != "self"]) != 1:
         raise Unsupported(f"{fi.fq}: parameters {fi.params}")
     bad_match = bad_nomatch = None
+    used_counters = sorted({P.counter_of(x) for x in ast.walk(fi.node) if P.counter_of(x)})
+    bad_counter: dict[str, str] = {}
     n_rows = 0
     for depth in range(1, 5):
         for bits in range(2 ** (depth - 1)):
@@ -1959,8 +2115,25 @@ def _judge_enclose(P: Ctx, rep: Report, fi: FunctionInfo) -> None:
             except _Stops as e:
                 got = f"{run.pops} popped, then {e.why}" if e.why != "raise" else f"{run.pops} popped, then an exception is raised"
                 wrong = run.pops != want or e.why != "raise"
+            shape = "[Root" + "".join(", match" if m else ", other" for m in pattern[1:]) + "] (bottom .. top)"
+            for c in used_counters:
+                decs = list(run.decs.get(c, []))
+                unpaired = []
+                for ent in run.popped_entries:
+                    if ent in decs:
+                        decs.remove(ent)
+                    elif ent.matches and "name" in decs:
+                        decs.remove("name")
+                    else:
+                        unpaired.append(ent)
+                if (unpaired or decs) and c not in bad_counter:
+                    what = []
+                    if unpaired:
+                        what.append(f"{len(unpaired)} of the {len(run.popped_entries)} popped element(s) ({', '.join('the matched one' if e.matches else 'an implicitly closed one' for e in unpaired)}) get no decrement of {c}[<their name>]")
+                    if decs:
+                        what.append(f"{len(decs)} decrement(s) without a popped element")
+                    bad_counter[c] = f"open elements {shape}: " + "; ".join(what)
             if wrong:
-                shape = "[Root" + "".join(", match" if m else ", other" for m in pattern[1:]) + "] (bottom .. top)"
                 msg = f"open elements {shape}: {got}, expected {want}"
                 if want and bad_match is None:
                     bad_match = msg
@@ -1972,6 +2145,12 @@ def _judge_enclose(P: Ctx, rep: Report, fi: FunctionInfo) -> None:
         rep.violation("C16.R5", key, site, f"{fi.qualname}: {bad_match} - balanced input closes the wrong elements, so children are attached to the wrong parent and the rendering differs from the source")
     else:
         rep.ok("C16.R5", key, site, f"{n_rows}-row decision table over abstract stacks of depth 1-4")
+    for c in used_counters:
+        key = f"{fi.fq}|per-name counter {c} stays in step with the stack"
+        if c in bad_counter:
+            rep.violation("C16.R5", key, site, f"{fi.qualname} decides from self.{c} but does not keep it equal to the number of open elements per name - {bad_counter[c]}: afterwards the counter still claims an open element that is gone, a later closing tag of that name passes the guard and the pop loop runs through the Root (IndexError: pop from an empty deque) or closes unrelated elements")
+        else:
+            rep.ok("C16.R5", key, site, "every pop is paired with one decrement keyed by the popped element's name, on every row")
     key = f"{fi.fq}|no open element matches: nothing is popped"
     if bad_nomatch:
         rep.violation("C16.R5", key, site, f"{fi.qualname}: {bad_nomatch} - a stray `</x>` closes open elements (up to the root: the next event then raises IndexError in last() and the remaining text is lost)")
@@ -2706,6 +2885,55 @@ def mutants(corpus: Corpus):
         out.append(Mutant("c16-parser-module-singleton", "C16.R8", m.rel, splice(src, ctor, "_PARSER") + f"\n\n_PARSER = {P.parser.name}()\n", expect="tokenize_html"))
     else:
         out.append(("c16-parser-cached-per-config", "tokenize_html no longer constructs the parser itself"))
+    # ---- R5 (class: closing decision taken from bookkeeping that is not kept in step with the stack)
+    def counter_variant(dec_all: bool, inc: bool, void_inc: bool = False):
+        edits = []
+        for mn in ("__init__", "clear"):
+            st = find_node(T[mn], lambda n: isinstance(n, ast.Expr) and unparse(n) == "self.stack.append(self.outmost)") if mn in T else None
+            if st is None:
+                return None
+            edits.append((st, "self.stack.append(self.outmost)\n        " + ("self.open_names: dict = {}" if mn == "__init__" else "self.open_names.clear()")))
+        nt = T["nest_tag"]
+        st = find_node(nt, lambda n: isinstance(n, ast.Expr) and unparse(n) == "self.stack.append(item)")
+        pn = [p_ for p_ in nt.params if p_ != "self"]
+        if st is None or not pn:
+            return None
+        bump = f"self.open_names[{pn[0]}] = self.open_names.get({pn[0]}, 0) + 1"
+        if inc:
+            edits.append((st, "self.stack.append(item)\n        " + bump))
+        if void_inc:
+            vt_ = T["nest_vtag"]
+            st = find_node(vt_, lambda n: isinstance(n, ast.Expr) and unparse(n) == "top.append(item)")
+            pv = [p_ for p_ in vt_.params if p_ != "self"]
+            if st is None or not pv:
+                return None
+            edits.append((st, "top.append(item)\n        " + bump.replace(pn[0], pv[0])))
+        body = [x for x in en.node.body if not (isinstance(x, ast.Expr) and isinstance(x.value, ast.Constant))]
+        ep = [p_ for p_ in en.params if p_ != "self"][0]
+        if dec_all:
+            text = f"if not self.open_names.get({ep}):\n            return\n        while True:\n            closed = self.stack.pop()\n            self.open_names[closed.name] -= 1\n            if closed.name == {ep}:\n                break"
+        else:
+            text = f"if not self.open_names.get({ep}):\n            return\n        while self.stack.pop().name != {ep}:\n            pass\n        self.open_names[{ep}] -= 1"
+        edits.append((body[0], text))
+        for x in body[1:]:
+            edits.append((x, "pass"))
+        new_src = src
+        for node, txt in sorted(edits, key=lambda e_: (-e_[0].lineno, -e_[0].col_offset)):
+            new_src = splice(new_src, node, txt)
+        return new_src
+
+    for mid, args, exp in (
+        ("c16-open-counter-decremented-for-match-only", (False, True), "stays in step"),
+        ("c16-open-counter-never-incremented", (True, False), "is incremented for the pushed element"),
+        ("c16-open-counter-incremented-for-void-tags", (True, True, True), "untouched by childless"),
+    ):
+        ns = counter_variant(*args)
+        out.append(Mutant(mid, "C16.R5", m.rel, ns, expect=exp) if ns else (mid, "Tree no longer has the stack idiom this mutant rewrites"))
+    at2 = P.attribute.methods.get("__str__")
+    js2 = find_node(at2, lambda n: isinstance(n, ast.JoinedStr)) if at2 else None
+    if js2 is not None:
+        seg = ast.get_source_segment(src, js2)
+        add("c16-attribute-bare-when-falsy", "C16.R3", js2, f"({seg} if value else key)", "attributes are written as")
     # ---- R7
     f_ = E["find"]
     al = find_node(f_, lambda n: isinstance(n, ast.For) and n.orelse and "attrs" in unparse(n.iter))
